@@ -1,4 +1,3 @@
 SPECIFICATION Spec
-CONSTANT Script <- TraceScript
 INVARIANT Emit
 POSTCONDITION Accepted
